@@ -45,7 +45,7 @@ type verifCertSpec struct {
 // (baseEpoch, baseTag) under table k with one symbolically chosen defect (or
 // none) and a symbolic signer set, and says whether it is valid per the
 // reference predicate (DESIGN Appendix A.3), given whether a base is imposed.
-func verifMakeCert(tag string, expectInstance uint64, baseEpoch int64, k int, full bool, baseImposed bool, fixedSigners int) verifCertSpec {
+func verifMakeCert(tag string, expectInstance uint64, baseEpoch int64, baseTag byte, suffix int, k int, full bool, baseImposed bool, fixedSigners int) verifCertSpec {
 	table := verifTable(k)
 	next := verifTable(k + 1)
 	n := len(table)
@@ -62,18 +62,26 @@ func verifMakeCert(tag string, expectInstance uint64, baseEpoch int64, k int, fu
 		sym.Assume(instance != expectInstance)
 		valid = false
 	}
-	chain := gpbft.VerifChain(baseEpoch, byte(baseEpoch), byte(baseEpoch+1), byte(baseEpoch+2))
+	var tags []byte
+	for i := 1; i <= suffix; i++ {
+		tags = append(tags, byte(baseEpoch+int64(i)))
+	}
+	chain := gpbft.VerifChain(baseEpoch, baseTag, tags...)
 	switch defect {
 	case 2: // base differs from the imposed one (valid if no base is imposed)
-		chain = gpbft.VerifChain(baseEpoch, 99, byte(baseEpoch+1), byte(baseEpoch+2))
+		chain = gpbft.VerifChain(baseEpoch, baseTag^0x55, tags...)
 		if baseImposed {
 			valid = false
 		}
 	case 3: // bottom
 		chain = &gpbft.ECChain{}
 		valid = false
-	case 4: // ill-formed: epochs not increasing
-		chain.TipSets[1].Epoch = baseEpoch
+	case 4: // ill-formed: epochs not increasing (or, for a base-only chain, an empty tipset key)
+		if suffix > 0 {
+			chain.TipSets[1].Epoch = baseEpoch
+		} else {
+			chain.TipSets[0].Key = nil
+		}
 		valid = false
 	}
 	supp := gpbft.SupplementalData{}
@@ -159,7 +167,7 @@ func VerifC04_ValidateOne() {
 	case 2:
 		base = gpbft.VerifTipSet(11, 10) // differs from every generated base
 	}
-	spec := verifMakeCert("c0", first, 10, 0, sym.Tier() == 1, base != nil, 0)
+	spec := verifMakeCert("c0", first, 10, 10, 2, 0, sym.Tier() == 1, base != nil, 0)
 	valid := spec.valid
 	if base != nil && base.Epoch != 10 {
 		valid = false
@@ -187,9 +195,15 @@ func VerifC04_ValidateOne() {
 // head finalized by the predecessor and through evolving power tables).
 func VerifC04_ValidateSequence() {
 	first := uint64(7)
-	s0 := verifMakeCert("c0", first, 10, 0, false, false, 2-sym.Tier())
-	// the second certificate must start at the head finalized by the first (epoch 12)
-	s1 := verifMakeCert("c1", first+1, 12, 1, false, true, 2-sym.Tier())
+	// the first certificate finalizes two new tipsets or none (a base-only decision)
+	n0 := 2 * sym.Choice("c0-suffix-len-half", 2)
+	s0 := verifMakeCert("c0", first, 10, 10, n0, 0, false, false, 2-sym.Tier())
+	// the second certificate must start at the head finalized by the first
+	headTag := byte(10 + n0)
+	if !s0.cert.ECChain.IsZero() && len(s0.cert.ECChain.Head().Key) > 0 {
+		headTag = s0.cert.ECChain.Head().Key[0]
+	}
+	s1 := verifMakeCert("c1", first+1, 10+int64(n0), headTag, 2, 1, false, true, 2-sym.Tier())
 	next, chain, table, err := ValidateFinalityCertificates(gpbft.VerifCrypto{}, verifNN, verifTable(0), first, nil, s0.cert, s1.cert)
 	prefix := 0
 	if s0.valid {
@@ -206,9 +220,9 @@ func VerifC04_ValidateSequence() {
 	case 0:
 		sym.Assert(chain.IsZero(), "empty prefix: no chain")
 	case 1:
-		sym.Assert(chain.Len() == 2, "prefix 1: suffix of the first certificate")
+		sym.Assert(chain.Len() == n0, "prefix 1: suffix of the first certificate")
 	default:
 		sym.Cover("both-valid")
-		sym.Assert(chain.Len() == 4 && chain.TipSets[3].Epoch == 14, "prefix 2: both suffixes, in order")
+		sym.Assert(chain.Len() == n0+2 && chain.TipSets[n0+1].Epoch == 12+int64(n0), "prefix 2: both suffixes, in order")
 	}
 }
